@@ -286,6 +286,7 @@ class Interp:
         self.events = []          # obligations and notes
         self.call_hooks = []      # fn(I, st, call) for every call event (recording passes only)
         self.stmt_hooks = []      # fn(I, ctx, st, bi, si, stmt)
+        self.store_hooks = []     # fn(I, ctx, st, Place, new value, site) before an assignment
         self.loop_hooks = []      # fn(I, ctx, head block, head state, back states, exits)
         self.value_hooks = []     # fn(I, ctx, st, value) -> None, on every assigned value (all passes)
         self.return_hooks = {}
@@ -1112,6 +1113,11 @@ class Interp:
                 site = {"fn": ctx.body["path"], "id": ctx.body["id"], "bb": bi, "si": si,
                         "file": sp["f"], "line": sp.get("cl", sp["l"]) if "exp" in sp else sp["l"], "stack": ctx.stack}
             v = self.rvalue(ctx, st, s["rv"], dty, site)
+            if self.store_hooks and self.recording:
+                tp, _ = self.resolve(ctx, st, mp)
+                if isinstance(tp, Place):
+                    for h in self.store_hooks:
+                        h(self, ctx, st, tp, v, site)
             self.store(ctx, st, mp, v)
             for h in self.value_hooks:
                 h(self, ctx, st, v)
